@@ -71,11 +71,11 @@ def run(ctx):
         ctx.failures(res["failures"])
         for s in res["samples"][:3]:
             ctx.sample(s)
-        if res["extra"]["traces_recorded"] > 0 and not hung:
+        if (res.get("extra") or {}).get("traces_recorded", 0) > 0 and not hung:
             if tracecheck.validate(ctx, "TraceEndPoint", "TraceEndPoint.cfg", trp, "replay " + cfg, "endpoint/trace-rejected"):
-                traces += res["extra"]["traces_recorded"]
+                traces += (res.get("extra") or {}).get("traces_recorded", 0)
                 ctx.extra.setdefault("trace_lines", 0)
-                ctx.extra["trace_lines"] += res["extra"]["trace_lines"]
+                ctx.extra["trace_lines"] += (res.get("extra") or {}).get("trace_lines", 0)
                 last_ok = trp
 
     # (c) stress
@@ -91,7 +91,7 @@ def run(ctx):
         if tracecheck.validate(ctx, "TraceEndPoint", "TraceEndPoint_stress.cfg", sp, "stress", "endpoint/trace-rejected"):
             traces += res["evaluations"]
             ctx.extra.setdefault("trace_lines", 0)
-            ctx.extra["trace_lines"] += res["extra"]["trace_lines"]
+            ctx.extra["trace_lines"] += (res.get("extra") or {}).get("trace_lines", 0)
 
         # binding self-tests on the stress trace: (1) a dropped queue-close, (2) a closer reported twice
         def drop_qclose(evs):
